@@ -822,6 +822,11 @@ func (store *KeyStore) describeDir(dirName string) ([]keystore.KeyDescription, e
 		}
 
 		description, err := DescribeKeyFile(fileInfo.Name())
+		if err == ErrUnrecognizedKeyPurpose {
+			// not a key file, e.g. a temporary file left behind by an interrupted key write
+			log.WithField("file", fileInfo.Name()).Warn("Ignoring file that is not a key")
+			continue
+		}
 		if err != nil {
 			return nil, err
 		}
